@@ -183,8 +183,15 @@ func (h2) Gen(prop, tier string, r *simrt.Rng) (any, simrt.Config) {
 		Strategy: simrt.Pick(r, "sticky", "sticky", "rw", "pct", "delay"), SwitchProb: simrt.Pick(r, 0.01, 0.05, 0.2),
 		PCTDepth: 1 + r.Intn(4), PCTSteps: 1500, DelayMod: 3 + r.Intn(5), MaxSimNs: int64(10 * time.Minute), MaxSteps: 400000,
 	}
-	if r.Intn(5) == 0 {
+	switch r.Intn(6) {
+	case 0:
 		sc.StallPermille, sc.StallMaxMs, sc.MaxStalls = simrt.Pick(r, 2, 10), simrt.Pick(r, 5, 80), 1+r.Intn(3)
+	case 1:
+		// a worker (or the ticking side) pre-empted in the middle of the pending-jobs protocol for longer than a tick:
+		// the only way a tick can land between two steps of one worker, since simulated time stands still while
+		// anything is runnable
+		sc.StallPermille, sc.StallMaxMs, sc.MaxStalls = simrt.Pick(r, 20, 60, 150), simrt.Pick(r, 15, 60, 130), 1+r.Intn(6)
+		sc.StallSites = simrt.Pick(r, "jobCounter.", "jobCounter.|TriggerPool.run|TriggerPool.waitForNewJobs|TriggerPool.sendJobsForExecution")
 	}
 	return c, sc
 }
